@@ -124,15 +124,20 @@ Proof.
 Qed.
 
 (* ------------------------------------------------ the invariant holds on every history *)
+Lemma tx_create_edge s a b p : tx (fst (create_edge s a b p)) = tx s.
+Proof. unfold create_edge. destruct (has_node s a && has_node s b); reflexivity. Qed.
+
 Lemma tx_step s o :
   tx (fst (step s o)) = match o with Tx o' => fst (Txn.step (tx s) o') | _ => tx s end.
 Proof.
-  destruct o as [p|n k v|a b|e k v|o']; cbn [step].
+  destruct o as [p|n k v|a b|e k v|o'|a b p|e k]; cbn [step].
   - reflexivity.
   - unfold set_node. destruct (lookup n (nodes s)); [|reflexivity]. destruct (olast l); reflexivity.
-  - destruct (has_node s a && has_node s b); reflexivity.
+  - apply tx_create_edge.
   - unfold set_edge. destruct (negb (has_edge s e)); reflexivity.
   - destruct o'; try reflexivity; cbn [step]; match goal with |- context [Txn.step ?a ?b] => destruct (Txn.step a b) end; reflexivity.
+  - apply tx_create_edge.
+  - unfold remove_edge. destruct (has_edge s e && ephas k (cur_eprops s e)); reflexivity.
 Qed.
 
 Lemma curv_step s o : curv s <= curv (fst (step s o)).
@@ -140,35 +145,45 @@ Proof.
   unfold curv. rewrite tx_step. destruct o; try lia. apply step_cur.
 Qed.
 
+(* the two relationship primitives keep the log bounded *)
+Lemma lb_edge_update s e post : log_bounded s -> log_bounded (edge_update s e post).
+Proof.
+  intros H. unfold log_bounded, curv, edge_update. cbn [elog tx]. intros e' log'. rewrite lookup_set.
+  destruct (N.eqb e' e) eqn:Ee; [|apply H].
+  intros [= <-]. fold (curv s).
+  assert (bounded (curv s) (match lookup e (elog s) with Some l => l | None => [] end)) as Hl0.
+  { destruct (lookup e (elog s)) eqn:El; [eapply H; eauto|constructor]. }
+  set (log0 := match lookup e (elog s) with Some l => l | None => [] end) in *.
+  assert (bounded (curv s)
+            (match log0 with
+             | [] => if N.ltb 1 (curv s) then [{| v_ver := 1; v_props := cur_eprops s e |}] else []
+             | _ :: _ => log0 end)) as Hl.
+  { destruct log0; [|exact Hl0]. destruct (N.ltb 1 (curv s)) eqn:E1; [|constructor].
+    constructor; [cbn; lia|constructor]. }
+  destruct (olast _).
+  - destruct (N.eqb (v_ver v) (curv s)).
+    + apply bounded_upd_last; auto.
+    + apply bounded_app; auto. cbn. lia.
+  - apply bounded_app; auto. cbn. lia.
+Qed.
+
+Lemma lb_create_edge s a b p : log_bounded s -> log_bounded (fst (create_edge s a b p)).
+Proof.
+  intros H. unfold create_edge. destruct (has_node s a && has_node s b); [|exact H].
+  cbn [fst]. unfold log_bounded, curv, log_creation. cbn [elog tx]. fold (curv s).
+  destruct (N.ltb 1 (curv s)); [|exact H]. intros e' log'. rewrite lookup_set.
+  destruct (N.eqb e' (next_edge s)); [|apply H]. intros [= <-]. constructor; [cbn; lia|constructor].
+Qed.
+
 Lemma log_bounded_step s o : log_bounded s -> log_bounded (fst (step s o)).
 Proof.
   intros H. pose proof (curv_step s o) as Hc. revert Hc.
-  destruct o as [p|n k v|a b|e k v|o']; cbn [step].
+  destruct o as [p|n k v|a b|e k v|o'|a b p|e k]; cbn [step].
   - cbn. intros _. exact H.
   - unfold set_node. destruct (lookup n (nodes s)); [|intros _; exact H].
     destruct (olast l); [|intros _; exact H]. cbn. intros _. exact H.
-  - destruct (has_node s a && has_node s b); [|cbn; intros _; exact H].
-    cbn [fst]. intros _. unfold log_bounded, curv, log_creation. cbn [elog tx]. fold (curv s).
-    destruct (N.ltb 1 (curv s)); [|exact H]. intros e' log'. rewrite lookup_set.
-    destruct (N.eqb e' (next_edge s)); [|apply H]. intros [= <-]. constructor; [cbn; lia|constructor].
-  - unfold set_edge. destruct (negb (has_edge s e)); [intros _; exact H|].
-    cbn [fst]. intros _. unfold log_bounded, curv. cbn [elog tx]. intros e' log'. rewrite lookup_set.
-    destruct (N.eqb e' e) eqn:Ee; [|apply H].
-    intros [= <-]. fold (curv s).
-    assert (bounded (curv s) (match lookup e (elog s) with Some l => l | None => [] end)) as Hl0.
-    { destruct (lookup e (elog s)) eqn:El; [eapply H; eauto|constructor]. }
-    set (log0 := match lookup e (elog s) with Some l => l | None => [] end) in *.
-    assert (bounded (curv s)
-              (match log0 with
-               | [] => if N.ltb 1 (curv s) then [{| v_ver := 1; v_props := cur_eprops s e |}] else []
-               | _ :: _ => log0 end)) as Hl.
-    { destruct log0; [|exact Hl0]. destruct (N.ltb 1 (curv s)) eqn:E1; [|constructor].
-      constructor; [cbn; lia|constructor]. }
-    destruct (olast _).
-    + destruct (N.eqb (v_ver v0) (curv s)).
-      * apply bounded_upd_last; auto.
-      * apply bounded_app; auto. cbn. lia.
-    + apply bounded_app; auto. cbn. lia.
+  - intros _. apply lb_create_edge; exact H.
+  - unfold set_edge. destruct (negb (has_edge s e)); intros _; [exact H|]. cbn [fst]. apply lb_edge_update; exact H.
   - destruct o'; cbn [step fst];
       try (match goal with |- context [Txn.step ?a ?b] => destruct (Txn.step a b) as [t' r] eqn:Es end;
            cbn [fst]; intros Hc; unfold log_bounded in *; cbn [with_tx elog]; intros e0 log0 El0;
@@ -177,12 +192,23 @@ Proof.
       destruct (lookup e (elog s)) eqn:El; [|discriminate]. intros [= <-]. apply bounded_gc. eapply H; eauto.
     + intros _. unfold log_bounded, curv. cbn [gc elog tx]. intros e log. rewrite lookup_gc_map.
       destruct (lookup e (elog s)) eqn:El; [|discriminate]. intros [= <-]. apply bounded_gc. eapply H; eauto.
+  - intros _. apply lb_create_edge; exact H.
+  - unfold remove_edge. destruct (has_edge s e && ephas k (cur_eprops s e)); intros _; [|exact H].
+    cbn [fst]. apply lb_edge_update; exact H.
+Qed.
+
+Lemma cb_same s s' : nodes s' = nodes s -> curv s' = curv s -> chain_bounded s -> chain_bounded s'.
+Proof. intros Hn Hc H. unfold chain_bounded. rewrite Hn, Hc. exact H. Qed.
+
+Lemma cb_create_edge s a b p : chain_bounded s -> chain_bounded (fst (create_edge s a b p)).
+Proof.
+  unfold create_edge. destruct (has_node s a && has_node s b); [|auto]. apply cb_same; reflexivity.
 Qed.
 
 Lemma chain_bounded_step s o : chain_bounded s -> chain_bounded (fst (step s o)).
 Proof.
   intros H. pose proof (curv_step s o) as Hc. revert Hc.
-  destruct o as [p|n k v|a b|e k v|o']; cbn [step].
+  destruct o as [p|n k v|a b|e k v|o'|a b p|e k]; cbn [step].
   - cbn [fst]. intros _. unfold chain_bounded, curv. cbn [nodes tx]. intros n chain. rewrite lookup_set.
     destruct (N.eqb n (next_node s)); [|apply H]. intros [= <-]. constructor; [cbn; unfold curv; lia|constructor].
   - unfold set_node. destruct (lookup n (nodes s)) as [chain|] eqn:El; [|intros _; exact H].
@@ -192,8 +218,8 @@ Proof.
     specialize (H n chain El). destruct (N.ltb (v_ver latest) (curv s)).
     + apply bounded_app; auto. cbn. lia.
     + apply bounded_upd_last; auto.
-  - destruct (has_node s a && has_node s b); cbn; intros _; exact H.
-  - unfold set_edge. destruct (negb (has_edge s e)); [intros _; exact H|]. cbn. intros _. exact H.
+  - intros _. apply cb_create_edge; exact H.
+  - unfold set_edge. destruct (negb (has_edge s e)); intros _; [exact H|]. cbn [fst]. revert H. apply cb_same; reflexivity.
   - destruct o'; cbn [step fst];
       try (match goal with |- context [Txn.step ?a ?b] => destruct (Txn.step a b) as [t' r] eqn:Es end;
            cbn [fst]; intros Hc; unfold chain_bounded in *; cbn [with_tx nodes]; intros e0 log0 El0;
@@ -202,6 +228,9 @@ Proof.
       destruct (lookup e (nodes s)) eqn:El; [|discriminate]. intros [= <-]. apply bounded_gc. eapply H; eauto.
     + intros _. unfold chain_bounded, curv. cbn [gc nodes tx]. intros e log. rewrite lookup_gc_map.
       destruct (lookup e (nodes s)) eqn:El; [|discriminate]. intros [= <-]. apply bounded_gc. eapply H; eauto.
+  - intros _. apply cb_create_edge; exact H.
+  - unfold remove_edge. destruct (has_edge s e && ephas k (cur_eprops s e)); intros _; [|exact H].
+    cbn [fst]. revert H. apply cb_same; reflexivity.
 Qed.
 
 Definition tx_inv (s : store) : Prop := exists g, Inv (tx s) g.
@@ -406,70 +435,86 @@ Proof.
   constructor; [exact wf_init| | | |]; cbn; try (intros; contradiction); intros; discriminate.
 Qed.
 
+(* the structural part of wf2 (everything but [wf]) *)
+Definition shape (s : store) : Prop :=
+  (forall id, In id (live s) -> id < next_edge s) /\
+  (forall id log, lookup id (elog s) = Some log -> In id (live s)) /\
+  (forall id log, lookup id (elog s) = Some log -> log <> []) /\
+  (forall id c, lookup id (nodes s) = Some c -> id < next_node s).
+
+Lemma olast_ne {A} (l : list A) y : olast l = Some y -> l <> [].
+Proof. destruct l; [discriminate|discriminate]. Qed.
+
+Lemma shape_edge_update s e post : has_edge s e = true -> shape s -> shape (edge_update s e post).
+Proof.
+  intros He [L1 [L2 [L3 L4]]]. unfold shape, edge_update. cbn [live elog nodes next_edge next_node].
+  split; [exact L1|]. split; [|split; [|exact L4]].
+  - intros id log. rewrite lookup_set. destruct (N.eqb id e) eqn:E; [|apply L2].
+    apply N.eqb_eq in E. subst. intros _. apply mem_in. exact He.
+  - intros id log. rewrite lookup_set. destruct (N.eqb id e) eqn:E; [|apply L3].
+    intros [= <-].
+    match goal with |- context [olast ?l] => remember l as lg eqn:Elg; destruct (olast lg) eqn:Eo end.
+    + destruct (N.eqb (v_ver v) (curv s)).
+      * apply upd_last_ne. eapply olast_ne; eauto.
+      * intros H. apply app_eq_nil in H. destruct H; discriminate.
+    + intros H. apply app_eq_nil in H. destruct H; discriminate.
+Qed.
+
+Lemma shape_create_edge s a b p : shape s -> shape (fst (create_edge s a b p)).
+Proof.
+  intros [L1 [L2 [L3 L4]]]. unfold create_edge. destruct (has_node s a && has_node s b); [|repeat split; auto].
+  unfold shape. cbn [fst live elog nodes next_edge next_node]. split; [|split; [|split; [|exact L4]]].
+  - intros id Hi. apply in_app_or in Hi. destruct Hi as [Hi|[<-|[]]]; [apply L1 in Hi; lia|lia].
+  - unfold log_creation. intros id log. destruct (N.ltb 1 (curv s)).
+    + rewrite lookup_set. destruct (N.eqb id (next_edge s)) eqn:E.
+      * apply N.eqb_eq in E. subst. intros _. apply in_or_app. right. left. reflexivity.
+      * intros H. apply in_or_app. left. eapply L2; eauto.
+    + intros H. apply in_or_app. left. eapply L2; eauto.
+  - unfold log_creation. intros id log. destruct (N.ltb 1 (curv s)); [|apply L3].
+    rewrite lookup_set. destruct (N.eqb id (next_edge s)); [intros [= <-]; discriminate|apply L3].
+Qed.
+
+Lemma shape_step s o : shape s -> shape (fst (step s o)).
+Proof.
+  intros S. destruct o as [p|n k v|a b|e k v|o'|a b p|e k]; cbn [step].
+  - destruct S as [L1 [L2 [L3 L4]]]. unfold shape. cbn [fst live elog nodes next_edge next_node].
+    repeat split; auto. intros id c. rewrite lookup_set. destruct (N.eqb id (next_node s)) eqn:E.
+    + apply N.eqb_eq in E. intros _. lia.
+    + intros H. apply L4 in H. lia.
+  - unfold set_node. destruct (lookup n (nodes s)) eqn:El; [|exact S]. destruct (olast l); [|exact S].
+    destruct S as [L1 [L2 [L3 L4]]]. unfold shape. cbn [fst live elog nodes next_edge next_node].
+    repeat split; auto. intros id c. rewrite lookup_set. destruct (N.eqb id n) eqn:E; [|apply L4].
+    apply N.eqb_eq in E. subst. intros _. eapply L4; eauto.
+  - apply shape_create_edge; exact S.
+  - unfold set_edge. destruct (negb (has_edge s e)) eqn:He; [exact S|]. cbn [fst].
+    apply shape_edge_update; [apply negb_false_iff; exact He|exact S].
+  - destruct S as [L1 [L2 [L3 L4]]].
+    destruct o'; cbn [step];
+      try (match goal with |- context [Txn.step ?a ?b] => destruct (Txn.step a b) end; repeat split; assumption);
+      unfold shape; cbn [fst gc live elog nodes next_edge next_node]; (split; [exact L1|]);
+      (split; [intros id log; rewrite lookup_gc_map; (destruct (lookup id (elog s)) eqn:El; [|discriminate]);
+               intros _; eapply L2; eauto|]);
+      (split; [intros id log; rewrite lookup_gc_map; (destruct (lookup id (elog s)) eqn:El; [|discriminate]);
+               intros [= <-]; apply gc_list_ne; eapply L3; eauto|]);
+      intros id c; rewrite lookup_gc_map; (destruct (lookup id (nodes s)) eqn:El; [|discriminate]);
+      intros _; eapply L4; eauto.
+  - apply shape_create_edge; exact S.
+  - unfold remove_edge. destruct (has_edge s e && ephas k (cur_eprops s e)) eqn:He; [|exact S]. cbn [fst].
+    apply andb_true_iff in He. apply shape_edge_update; [tauto|exact S].
+Qed.
+
+Lemma wf2_shape s : wf2 s <-> wf s /\ shape s.
+Proof.
+  split.
+  - intros [W L1 L2 L3 L4]. split; [exact W|]. repeat split; assumption.
+  - intros [W [L1 [L2 [L3 L4]]]]. constructor; assumption.
+Qed.
+
 Lemma wf2_step s o : wf2 s -> wf2 (fst (step s o)).
 Proof.
-  intros [[W1 [W2 W3]] L1 L2 L3 L4].
-  constructor.
+  intros H. apply wf2_shape in H. destruct H as [[W1 [W2 W3]] S]. apply wf2_shape. split.
   - split; [apply tx_inv_step; auto|]. split; [apply log_bounded_step; auto|apply chain_bounded_step; auto].
-  - (* live ids below next_edge *)
-    destruct o as [p|n k v|a b|e k v|o']; cbn [step].
-    + cbn. exact L1.
-    + unfold set_node. destruct (lookup n (nodes s)); [|exact L1]. destruct (olast l); exact L1.
-    + destruct (has_node s a && has_node s b); [|exact L1]. cbn. intros id Hi.
-      apply in_app_or in Hi. destruct Hi as [Hi|[<-|[]]]; [apply L1 in Hi; lia|lia].
-    + unfold set_edge. destruct (negb (has_edge s e)); exact L1.
-    + destruct o'; cbn [step]; try exact L1;
-        match goal with |- context [Txn.step ?a ?b] => destruct (Txn.step a b) end; exact L1.
-  - (* logged ids are live *)
-    destruct o as [p|n k v|a b|e k v|o']; cbn [step].
-    + cbn. exact L2.
-    + unfold set_node. destruct (lookup n (nodes s)); [|exact L2]. destruct (olast l); exact L2.
-    + destruct (has_node s a && has_node s b); [|exact L2]. cbn [fst live elog]. unfold log_creation.
-      intros id log. destruct (N.ltb 1 (curv s)).
-      * rewrite lookup_set. destruct (N.eqb id (next_edge s)) eqn:E.
-        -- apply N.eqb_eq in E. subst. intros _. apply in_or_app. right. left. reflexivity.
-        -- intros H. apply in_or_app. left. eapply L2; eauto.
-      * intros H. apply in_or_app. left. eapply L2; eauto.
-    + unfold set_edge. destruct (negb (has_edge s e)) eqn:He; [exact L2|]. cbn [fst live elog].
-      intros id log. rewrite lookup_set. destruct (N.eqb id e) eqn:E; [|apply L2].
-      apply N.eqb_eq in E. subst. intros _. apply negb_false_iff in He. apply mem_in. exact He.
-    + destruct o'; cbn [step];
-        try (match goal with |- context [Txn.step ?a ?b] => destruct (Txn.step a b) end; exact L2);
-        cbn [fst gc live elog]; intros id log; rewrite lookup_gc_map;
-        (destruct (lookup id (elog s)) eqn:El; [|discriminate]); intros _; eapply L2; eauto.
-  - (* logs are never empty *)
-    destruct o as [p|n k v|a b|e k v|o']; cbn [step].
-    + cbn. exact L3.
-    + unfold set_node. destruct (lookup n (nodes s)); [|exact L3]. destruct (olast l); exact L3.
-    + destruct (has_node s a && has_node s b); [|exact L3]. cbn [fst elog]. unfold log_creation.
-      intros id log. destruct (N.ltb 1 (curv s)); [|apply L3].
-      rewrite lookup_set. destruct (N.eqb id (next_edge s)); [intros [= <-]; discriminate|apply L3].
-    + unfold set_edge. destruct (negb (has_edge s e)) eqn:He; [exact L3|]. cbn [fst elog].
-      intros id log. rewrite lookup_set. destruct (N.eqb id e) eqn:E; [|apply L3].
-      intros [= <-].
-      match goal with |- context [olast ?l] => remember l as lg eqn:Elg; destruct (olast lg) eqn:Eo end.
-      * destruct (N.eqb (v_ver v0) (curv s)).
-        -- apply upd_last_ne. intros Hnil. rewrite Hnil in Eo. discriminate.
-        -- intros H. apply app_eq_nil in H. destruct H; discriminate.
-      * intros H. apply app_eq_nil in H. destruct H; discriminate.
-    + destruct o'; cbn [step];
-        try (match goal with |- context [Txn.step ?a ?b] => destruct (Txn.step a b) end; exact L3);
-        cbn [fst gc elog]; intros id log; rewrite lookup_gc_map;
-        (destruct (lookup id (elog s)) eqn:El; [|discriminate]); intros [= <-]; apply gc_list_ne; eapply L3; eauto.
-  - (* node ids below next_node *)
-    destruct o as [p|n k v|a b|e k v|o']; cbn [step].
-    + cbn [fst nodes next_node]. intros id c. rewrite lookup_set. destruct (N.eqb id (next_node s)) eqn:E.
-      * apply N.eqb_eq in E. intros _. lia.
-      * intros H. apply L4 in H. lia.
-    + unfold set_node. destruct (lookup n (nodes s)) eqn:El; [|exact L4]. destruct (olast l); [|exact L4].
-      cbn [fst nodes next_node]. intros id c. rewrite lookup_set. destruct (N.eqb id n) eqn:E; [|apply L4].
-      apply N.eqb_eq in E. subst. intros _. eapply L4; eauto.
-    + destruct (has_node s a && has_node s b); exact L4.
-    + unfold set_edge. destruct (negb (has_edge s e)); exact L4.
-    + destruct o'; cbn [step];
-        try (match goal with |- context [Txn.step ?a ?b] => destruct (Txn.step a b) end; exact L4);
-        cbn [fst gc nodes next_node]; intros id c; rewrite lookup_gc_map;
-        (destruct (lookup id (nodes s)) eqn:El; [|discriminate]); intros _; eapply L4; eauto.
+  - apply shape_step; exact S.
 Qed.
 
 Lemma wf2_run_from ops : forall s, wf2 s -> wf2 (run_from s ops).
@@ -481,66 +526,97 @@ Qed.
 Lemma wf2_run ops : wf2 (run ops).
 Proof. apply wf2_run_from. exact wf2_init. Qed.
 
+Lemma pe_edge_update s e post x v :
+  (forall id log, lookup id (elog s) = Some log -> log <> []) -> v < curv s ->
+  let s' := edge_update s e post in
+  past_edge (live s') (elog s') (eprops s') x v = past_edge (live s) (elog s) (eprops s) x v.
+Proof.
+  intros L3 Hv. unfold edge_update. cbn [live elog eprops]. unfold past_edge.
+  destruct (negb (mem x (live s))); [reflexivity|].
+  rewrite !lookup_set. destruct (N.eqb x e) eqn:Ee; [|reflexivity].
+  apply N.eqb_eq in Ee. subst x. unfold cur_eprops.
+  destruct (lookup e (elog s)) as [[|x0 r0]|] eqn:El.
+  - exfalso. eapply L3; eauto.
+  - (* a log exists: last entry coalesced, or a new entry appended *)
+    destruct (olast_some (x0 :: r0)) as [l0 Hl0]; [discriminate|]. rewrite Hl0.
+    destruct (N.eqb (v_ver l0) (curv s)) eqn:E0.
+    + apply N.eqb_eq in E0. rewrite rfind_upd_last; [reflexivity|].
+      intros y Hy. rewrite Hl0 in Hy. injection Hy as <-. cbn [v_ver]. split; lia.
+    + rewrite rfind_app_false; [reflexivity|]. cbn [v_ver]. lia.
+  - (* no log yet: pre-image under version 1, then the post-image *)
+    destruct (N.ltb 1 (curv s)) eqn:E1.
+    + cbn [olast v_ver]. assert (N.eqb 1 (curv s) = false) as -> by lia.
+      cbn [app rfind v_ver]. assert (N.leb (curv s) v = false) as -> by lia.
+      destruct (N.leb 1 v) eqn:E2; cbn [v_ver v_props].
+      * assert (N.ltb v 1 = false) as -> by lia. reflexivity.
+      * assert (N.ltb v 1 = true) as -> by lia. reflexivity.
+    + cbn [olast app rfind v_ver]. assert (N.leb (curv s) v = false) as -> by lia.
+      assert (N.ltb v 1 = true) as -> by lia. reflexivity.
+Qed.
+
+Lemma pe_create_edge s a b p x v :
+  shape s -> v < curv s ->
+  let s' := fst (create_edge s a b p) in
+  past_edge (live s') (elog s') (eprops s') x v = past_edge (live s) (elog s) (eprops s) x v.
+Proof.
+  intros [L1 [L2 [L3 L4]]] Hv. unfold create_edge. destruct (has_node s a && has_node s b); [|reflexivity].
+  cbn [fst live elog eprops]. unfold past_edge, log_creation. destruct (N.eqb x (next_edge s)) eqn:Ee.
+  - apply N.eqb_eq in Ee. subst x. rewrite mem_app_same. cbn [negb].
+    assert (~ In (next_edge s) (live s)) as Hnl by (intros Hi; apply L1 in Hi; lia).
+    rewrite (mem_false_not_in _ _ Hnl). cbn [negb].
+    destruct (N.ltb 1 (curv s)) eqn:E1.
+    + rewrite lookup_set, N.eqb_refl. cbn [rfind v_ver].
+      assert (N.leb (curv s) v = false) as -> by lia. reflexivity.
+    + destruct (lookup (next_edge s) (elog s)) eqn:El; [exfalso; apply Hnl; eapply L2; eauto|].
+      assert (N.ltb v 1 = true) as -> by lia. reflexivity.
+  - assert (x <> next_edge s) as Hne by (intros ->; rewrite N.eqb_refl in Ee; discriminate).
+    rewrite mem_app_other by auto. destruct (negb (mem x (live s))); [reflexivity|].
+    assert (lookup x (if N.ltb 1 (curv s)
+                      then set (next_edge s)
+                             [{| v_ver := curv s;
+                                 v_props := fold_left (fun m kv => pset (fst kv) (snd kv) m) p (cur_eprops s (next_edge s)) |}]
+                             (elog s)
+                      else elog s) = lookup x (elog s)) as ->.
+    { destruct (N.ltb 1 (curv s)); [|reflexivity]. rewrite lookup_set, Ee. reflexivity. }
+    destruct (lookup x (elog s)); [reflexivity|].
+    destruct p; [reflexivity|]. rewrite lookup_set, Ee. reflexivity.
+Qed.
+
 Lemma edge_stable_step s o e v :
   wf2 s -> v < curv s -> gc_ok v o = true ->
   read_edge (fst (step s o)) e v = read_edge s e v.
 Proof.
   intros W Hv Hok. pose proof (curv_step s o) as Hc.
-  destruct W as [[W1 [W2 W3]] L1 L2 L3 L4].
+  apply wf2_shape in W. destruct W as [[W1 [W2 W3]] S].
   (* collections first: C08 *)
-  destruct o as [p|n k x|a b|e' k x|o'];
+  destruct o as [p|n k x|a b|e' k x|o'|a b p|e' k];
     try (destruct o' as [i|t n|t e0|t|t|w|]; cbn [gc_ok] in Hok;
          [| | | | |cbn [step fst]; apply gc_preserves_edge; [exact W2|lia]|discriminate]);
     rewrite (read_edge_past s e v Hv), read_edge_past by lia.
   - reflexivity.
   - cbn [step]. unfold set_node. destruct (lookup n (nodes s)); [|reflexivity]. destruct (olast l); reflexivity.
-  - cbn [step]. destruct (has_node s a && has_node s b); [|reflexivity]. cbn [fst live elog eprops].
-    unfold past_edge, log_creation. destruct (N.eqb e (next_edge s)) eqn:Ee.
-    + apply N.eqb_eq in Ee. subst e. rewrite mem_app_same. cbn [negb].
-      assert (~ In (next_edge s) (live s)) as Hnl by (intros Hi; apply L1 in Hi; lia).
-      rewrite (mem_false_not_in _ _ Hnl). cbn [negb].
-      destruct (N.ltb 1 (curv s)) eqn:E1.
-      * rewrite lookup_set, N.eqb_refl. cbn [rfind v_ver].
-        assert (N.leb (curv s) v = false) as -> by lia. reflexivity.
-      * destruct (lookup (next_edge s) (elog s)) eqn:El; [exfalso; apply Hnl; eapply L2; eauto|].
-        assert (N.ltb v 1 = true) as -> by lia. reflexivity.
-    + assert (e <> next_edge s) as Hne by (intros ->; rewrite N.eqb_refl in Ee; discriminate).
-      rewrite mem_app_other by auto. destruct (N.ltb 1 (curv s)); [|reflexivity].
-      rewrite lookup_set, Ee. reflexivity.
-  - cbn [step]. unfold set_edge. destruct (negb (has_edge s e')) eqn:He; [reflexivity|].
-    cbn [fst live elog eprops]. unfold past_edge. destruct (negb (mem e (live s))); [reflexivity|].
-    rewrite !lookup_set. destruct (N.eqb e e') eqn:Ee; [|reflexivity].
-    apply N.eqb_eq in Ee. subst e'. unfold cur_eprops.
-    destruct (lookup e (elog s)) as [[|x0 r0]|] eqn:El.
-    + exfalso. eapply L3; eauto.
-    + (* a log exists: last entry coalesced, or a new entry appended *)
-      destruct (olast_some (x0 :: r0)) as [l0 Hl0]; [discriminate|]. rewrite Hl0.
-      destruct (N.eqb (v_ver l0) (curv s)) eqn:E0.
-      * apply N.eqb_eq in E0. rewrite rfind_upd_last; [reflexivity|].
-        intros y Hy. rewrite Hl0 in Hy. injection Hy as <-. cbn [v_ver]. split; lia.
-      * rewrite rfind_app_false; [reflexivity|]. cbn [v_ver]. lia.
-    + (* no log yet: pre-image under version 1, then the post-image *)
-      destruct (N.ltb 1 (curv s)) eqn:E1.
-      * cbn [olast v_ver]. assert (N.eqb 1 (curv s) = false) as -> by lia.
-        cbn [app rfind v_ver]. assert (N.leb (curv s) v = false) as -> by lia.
-        destruct (N.leb 1 v) eqn:E2; cbn [v_ver v_props].
-        -- assert (N.ltb v 1 = false) as -> by lia. reflexivity.
-        -- assert (N.ltb v 1 = true) as -> by lia. reflexivity.
-      * cbn [olast app rfind v_ver]. assert (N.leb (curv s) v = false) as -> by lia.
-        assert (N.ltb v 1 = true) as -> by lia. reflexivity.
+  - cbn [step]. apply pe_create_edge; assumption.
+  - cbn [step]. unfold set_edge. destruct (negb (has_edge s e')); [reflexivity|]. cbn [fst].
+    apply pe_edge_update; [apply S|exact Hv].
   - reflexivity.
   - cbn [step]. unfold write_n. cbn [Txn.step]. reflexivity.
   - reflexivity.
   - cbn [step]. match goal with |- context [Txn.step ?a ?b] => destruct (Txn.step a b) end. reflexivity.
   - cbn [step]. match goal with |- context [Txn.step ?a ?b] => destruct (Txn.step a b) end. reflexivity.
+  - cbn [step]. apply pe_create_edge; assumption.
+  - cbn [step]. unfold remove_edge. destruct (has_edge s e' && ephas k (cur_eprops s e')); [|reflexivity]. cbn [fst].
+    apply pe_edge_update; [apply S|exact Hv].
 Qed.
+
+Lemma nodes_create_edge s a b p : nodes (fst (create_edge s a b p)) = nodes s.
+Proof. unfold create_edge. destruct (has_node s a && has_node s b); reflexivity. Qed.
 
 Lemma node_stable_step s o n v :
   wf2 s -> v < curv s -> gc_ok v o = true ->
   read_node (fst (step s o)) n v = read_node s n v.
 Proof.
   intros W Hv Hok. destruct W as [[W1 [W2 W3]] L1 L2 L3 L4].
-  destruct o as [p|n' k x|a b|e' k x|o'].
+  destruct o as [p|n' k x|a b|e' k x|o'|a b p|e' k].
   - cbn [step fst]. unfold read_node. cbn [nodes]. rewrite lookup_set.
     destruct (N.eqb n (next_node s)) eqn:E; [|reflexivity]. apply N.eqb_eq in E. subst n.
     destruct (lookup (next_node s) (nodes s)) eqn:El; [apply L4 in El; lia|].
@@ -551,11 +627,13 @@ Proof.
     destruct (N.ltb (v_ver latest) (curv s)) eqn:E1.
     + apply rfind_app_false. cbn [v_ver]. lia.
     + apply rfind_upd_last. intros y Hy. rewrite Eo in Hy. injection Hy as <-. cbn [v_ver]. split; lia.
-  - cbn [step]. destruct (has_node s a && has_node s b); reflexivity.
+  - cbn [step]. unfold read_node. rewrite nodes_create_edge. reflexivity.
   - cbn [step]. unfold set_edge. destruct (negb (has_edge s e')); reflexivity.
   - destruct o' as [i|t m|t e0|t|t|w|]; cbn [gc_ok] in Hok; try discriminate;
       try (cbn [step]; match goal with |- context [Txn.step ?a ?b] => destruct (Txn.step a b) end; reflexivity).
     cbn [step fst]. apply gc_preserves_node. lia.
+  - cbn [step]. unfold read_node. rewrite nodes_create_edge. reflexivity.
+  - cbn [step]. unfold remove_edge. destruct (has_edge s e' && ephas k (cur_eprops s e')); reflexivity.
 Qed.
 
 Lemma stable_from ops : forall s v,
